@@ -271,9 +271,10 @@ func c09Impl(in []int64) []int64 {
 	case 1, 3, 5, 7, 9:
 		// Every decryption is preceded by a decryption of the SAME message with ANOTHER secret (result ignored): the
 		// answer must depend on the arguments only, not on what the previous call derived (a memo keyed by the salt,
-		// say).  The message is copied: the in-place variants may overwrite their input.
+		// say).  It is made on the caller's OWN buffer (none of these calls asks for in-place operation): an entry point
+		// that scribbles over its input makes the real call below fail, as a second use of the same message would.
 		other := append(append([]byte{}, secret...), 'x')
-		msg := append([]byte{}, text...)
+		msg := text
 		switch kind {
 		case 1:
 			_, _ = cryptz.Decrypt(msg, other)
